@@ -84,21 +84,32 @@ func (fi *fakeImporter) Import(p string) (*types.Package, error) {
 func typecheck(fset *token.FileSet, files []*ast.File) (string, *types.Info) {
 	var first string
 	n := 0
-	conf := types.Config{
-		Importer: &fakeImporter{pkgs: map[string]*types.Package{}},
-		Error: func(err error) {
-			if n == 0 {
-				msg := err.Error()
-				if te, ok := err.(types.Error); ok {
-					msg = te.Msg
-				}
-				first = msg
-			}
-			n++
-		},
+	info := &types.Info{Defs: map[*ast.Ident]types.Object{}, Uses: map[*ast.Ident]types.Object{}}
+	// files are grouped by package clause (a natives directory may mix `foo` and `foo_test`)
+	var order []string
+	groups := map[string][]*ast.File{}
+	for _, f := range files {
+		if _, ok := groups[f.Name.Name]; !ok {
+			order = append(order, f.Name.Name)
+		}
+		groups[f.Name.Name] = append(groups[f.Name.Name], f)
 	}
-	info := &types.Info{Defs: map[*ast.Ident]types.Object{}}
-	conf.Check("p", fset, files, info)
+	for _, name := range order {
+		conf := types.Config{
+			Importer: &fakeImporter{pkgs: map[string]*types.Package{}},
+			Error: func(err error) {
+				if n == 0 {
+					msg := err.Error()
+					if te, ok := err.(types.Error); ok {
+						msg = te.Msg
+					}
+					first = msg
+				}
+				n++
+			},
+		}
+		conf.Check(name, fset, groups[name], info)
+	}
 	if n == 0 {
 		return "ok", info
 	}
@@ -241,7 +252,24 @@ func process(req request, withSources bool) (ans answer) {
 	for _, f := range origs {
 		x.assign(f)
 	}
-	p := &projector{x: x}
+	// constant values before the merge: each side type-checked on its own (errors of the overlay side,
+	// which may refer to original names, do not matter for constant evaluation)
+	var tcOrig string
+	var beforeOrig, beforeOv *types.Info
+	tcOrig, beforeOrig = typecheck(fset, origs)
+	_, beforeOv = typecheck(fset, ovs)
+	ans.TCOrig = tcOrig
+	before := &types.Info{Defs: map[*ast.Ident]types.Object{}, Uses: map[*ast.Ident]types.Object{}}
+	for _, inf := range []*types.Info{beforeOrig, beforeOv} {
+		for k, v := range inf.Defs {
+			before.Defs[k] = v
+		}
+		for k, v := range inf.Uses {
+			before.Uses[k] = v
+		}
+	}
+
+	p := &projector{x: x, uses: before.Uses, fset: fset}
 	in := []string{req.IP, strconv.Itoa(len(ovs)), strconv.Itoa(len(origs))}
 	for _, f := range ovs {
 		p.file(f, &in)
@@ -250,21 +278,6 @@ func process(req request, withSources bool) (ans answer) {
 		p.file(f, &in)
 	}
 	ans.In = strings.Join(in, " ")
-
-	// constant values before the merge: each side type-checked on its own (errors of the overlay side,
-	// which may refer to original names, do not matter for constant evaluation)
-	var tcOrig string
-	var beforeOrig, beforeOv *types.Info
-	tcOrig, beforeOrig = typecheck(fset, origs)
-	_, beforeOv = typecheck(fset, ovs)
-	ans.TCOrig = tcOrig
-	before := &types.Info{Defs: map[*ast.Ident]types.Object{}}
-	for k, v := range beforeOrig.Defs {
-		before.Defs[k] = v
-	}
-	for k, v := range beforeOv.Defs {
-		before.Defs[k] = v
-	}
 
 	merged, table := build.VerifC12Augment(req.IP, ovs, origs)
 
